@@ -25,12 +25,12 @@ def scenarios(rng, tier):
             r = rng.random(); ep = rng.choice(['frame', 'frame', 'frame', 'classify', 'flow'])
             fill = rng.choice(['00', 'ff', '02', 'a5'])
             if r < 0.25:
-                cnt = rng.choice([0, 1, ecap - 1, ecap, ecap + 1, 0xFFFF, 0x8000, rng.randrange(65536)])
+                cnt = rng.choice([0, 1, ecap - 1, ecap, ecap + 1, 0xFFFF, 0x8000, rng.randrange(65536), (65536 * rng.randrange(1, 14) + 13) // 14 + rng.choice([0, 1, ecap // 2])])
                 held = rng.choice([0, 1, min(cnt, ecap), min(cnt, 3)])
                 descs = [(rng.choice([0, 1, 2]), rng.choice([0, 1]), mac(9), own) for _ in range(min(held, 12))]
                 fr = emit(M, own, descs, seq=rng.randrange(65536), count=cnt, tos=rng.choice([0, 0, 1, 2]))
             elif r < 0.5:
-                cnt = rng.choice([0, 1, dcap - 1, dcap, dcap + 1, 0xFFFF, 0x7FFF, rng.randrange(65536)])
+                cnt = rng.choice([0, 1, dcap - 1, dcap, dcap + 1, 0xFFFF, 0x7FFF, rng.randrange(65536), (65536 * rng.randrange(1, 6) + 5) // 6 + rng.choice([0, 1, dcap // 2])])
                 held = rng.choice([0, 1, 2, min(cnt, dcap)])
                 fr = discover(M, tos=rng.choice([0, 1, 2]), gen=rng.randrange(65536), seq=rng.randrange(65536), stations=[rng.choice([own, mac(5)]) for _ in range(held)], count=cnt)
             elif r < 0.62:
